@@ -126,7 +126,7 @@ theorem internal_of_mem {s : State} {e : Event} (h : e ∈ internalEvents s) : i
   rcases h with ⟨i, _, h | h⟩ | h
   · rcases h with h | h
     · simp at h
-      rcases h with h | h | h | h | h | h | h | h | h | h | h | h | h | h <;> subst h <;> rfl
+      rcases h with h | h | h | h | h | h | h | h | h | h | h | h | h | h | h <;> subst h <;> rfl
     · cases hq : s.queue.head? <;> simp [hq] at h
       subst h; rfl
   · simp at h; subst h; rfl
